@@ -13,6 +13,7 @@ package signdeb
 //@   on call path.Clean(n) ret (c): msize = ite(c == filename, hdr.Size, msize); mpos = ite(c == filename, counter.N, mpos); matched = matched || c == filename
 //@   before call (*binpatch.PatchSet).Add(_, off, sz, blob): assert @old_signature_member_removed_with_its_padding matched ==> \
 //@        off == mpos - 60 && sz == 60 + msize + msize % 2 && msize >= 0
+//@   before call io.Copy(w, src): assert @signature_members_of_any_role_are_not_part_of_the_digest !strings.HasPrefix(name, "_gpg")
 //@   before call (*binpatch.PatchSet).Add(_, off, sz, blob): assert @otherwise_the_signature_is_appended !matched ==> off == counter.N && sz == 0
 //@   loop 0 sig "for" invariant (matched ==> patchOffset == mpos - 60 && patchLength == 60 + msize + msize % 2) && (!matched ==> patchOffset == 0 && patchLength == 0) && \
 //@        68 <= mpos && mpos <= 2305843009213693952 && 0 <= msize && msize <= 9999999999
